@@ -93,24 +93,40 @@ class ImportConverter:
                 )  # type: ignore
         elif isinstance(module, ast.ImportFrom):
             if module.level == 0:
-                new_imports = [
-                    AbsoluteImport(
-                        module_name,
-                        self._adjust_with_root_prefix(
+                new_imports = []
+                for alias in module.names:
+                    # "from foo import bar": bar can be a sub module of foo or an object defined in foo
+                    importee = self._adjust_with_root_prefix(
+                        f"{module.module}.{alias.name}",
+                        absolute_import_prefix,
+                        all_internal_modules,
+                    )
+                    if importee not in all_internal_modules:
+                        importee = self._adjust_with_root_prefix(
                             module.module,  # type: ignore
                             absolute_import_prefix,
                             all_internal_modules,
-                        ),
-                    )
-                ]
+                        )
+                    new_imports.append(AbsoluteImport(module_name, importee))
             else:
                 new_imports = []
                 for alias in module.names:
-                    new_imports.append(
-                        RelativeImport(
-                            module_name, module.module, alias.name, module.level
-                        )
+                    relative_import = RelativeImport(
+                        module_name, module.module, alias.name, module.level
                     )
+                    if (
+                        module.module is not None
+                        and f"{relative_import.importee()}.{alias.name}"
+                        in all_internal_modules
+                    ):
+                        # "from .foo import bar" where bar is a sub module of foo
+                        relative_import = RelativeImport(
+                            module_name,
+                            f"{module.module}.{alias.name}",
+                            alias.name,
+                            module.level,
+                        )
+                    new_imports.append(relative_import)
 
         return new_imports
 
